@@ -32,6 +32,20 @@ def _pad_reuse_expr(array, pad_width, mode, **kwargs):
         if reflect_type != "even":
             raise ValueError("unsupported value for reflect_type, must be one of (`even`, `odd`)")
 
+    # The pieces below are slices of the array, so one side can reuse at most
+    # the axis itself (one element less for "reflect", which does not repeat the
+    # edge).  A wider pad takes the positions NumPy's own rule selects.
+    limits = [s - 1 if mode == "reflect" else s for s in array.shape]
+    if any(w > max(lim, 0) for pw, lim in zip(pad_width, limits) for w in pw):
+        from dask_array.routines._misc import take
+
+        result = array
+        for axis, (s, pw) in enumerate(zip(array.shape, pad_width)):
+            if tuple(pw) != (0, 0):
+                positions = np.pad(np.arange(s), tuple(pw), mode=mode)
+                result = take(result, positions, axis=axis)
+        return result
+
     result = np.empty(array.ndim * (3,), dtype=object)
     for idx in np.ndindex(result.shape):
         select = []
